@@ -1,5 +1,7 @@
 package main
 
+import "encoding/json"
+
 // Random / directed generators of schemas and values (used by C01, C12, C19, C06, C08).
 
 var numPalette = []float64{0, 1, -1, 2, 3, 5, 10, 0.5, 1.5, 2.5, -2.5, 100, 1e9, 7, 0.1, 0.3}
@@ -280,6 +282,16 @@ func valueFor(r *Rng, g *GSchema, depth int) any {
 		l := make([]any, n)
 		for i := range l {
 			l[i] = valueFor(r, g.Items, depth-1)
+		}
+		// uniqueItems: a repeated element, or a string spelling the JSON text of a sibling
+		// (distinct from it, whatever the implementation uses as comparison key)
+		if g.Unique && n > 0 && r.Chance(30) {
+			x := l[r.Intn(n)]
+			if r.Bool() {
+				l = append(l, x)
+			} else if b, err := json.Marshal(x); err == nil {
+				l = append(l, string(b))
+			}
 		}
 		return l
 	case "object":
